@@ -3409,7 +3409,9 @@ evhttp_response_code_(struct evhttp_request *req, int code, const char *reason)
 	req->response_code = code;
 	if (req->response_code_line != NULL)
 		mm_free(req->response_code_line);
-	if (reason == NULL)
+	/* A reason phrase with line breaks would be written verbatim into the
+	 * status line and could add header fields: use the standard phrase. */
+	if (reason == NULL || strpbrk(reason, "\r\n") != NULL)
 		reason = evhttp_response_phrase_internal(code);
 	req->response_code_line = mm_strdup(reason);
 	if (req->response_code_line == NULL) {
